@@ -10,6 +10,8 @@ import PxModel.DrvRelay
                  executor:  <n|0|1>@<tick>    (reaper after the round: not due / outcome of the comparison)
         <tick>, <buf>, <send>: as for `relay run` (PxModel/DrvRelay.lean); ticks are always masked
     modes fds <mode> <finished 0|1>
+    modes handoff <sched>                        (`,`-joined thread ids, `.` = empty; the locked protocol of
+                                                 delegate_work_to_pool under that schedule)
     modes live                                   (prediction of the model for a live differential run)
 
   Output of `run`: one observation per `handle_events` call (same format as
@@ -87,6 +89,18 @@ def drv (args : List String) : String :=
   | ["fds", mode, fin] =>
     match parseMode mode with
     | some m => "fds " ++ fdsStr (fdRun (fdOps m (fin == "1")))
+    | none => "bad-op"
+  | ["handoff", sched] =>
+    let ids := if sched == "." then some [] else (sched.splitOn ",").mapM String.toNat?
+    match ids with
+    | some ids =>
+      let s := hrun lockedProg ids
+      let it : Item → String := fun x => match x with | .addr i => s!"a{i}" | .fd i => s!"f{i}"
+      let csv : List String → String := fun l => if l.isEmpty then "." else ",".intercalate l
+      let rc := match recvAll s.pipe with
+        | none => "exc"
+        | some ps => csv (ps.map (fun (p : Nat × Nat) => s!"{p.1}:{p.2}"))
+      s!"handoff pipe={csv (s.pipe.map it)} acq={csv (s.acq.map toString)} lock={b01 s.lock.isSome} recv={rc}"
     | none => "bad-op"
   | ["live"] =>
     -- `C17_same_transcript_partial` / `C17_local_remote_identical`: the three transcripts coincide
